@@ -37,6 +37,35 @@ def random_runs(schema, rnd, tier):
     return runs
 
 
+def ref_runs(schema, rnd, tier):
+    """creation calls whose positional / keyword arguments run through referential attributes"""
+    runs = []
+    for _ in range(40 if tier == 'quick' else 600):
+        acts = []
+        for _ in range(rnd.randint(4, 12)):
+            k = rnd.random()
+            if k < 0.8:
+                c = rnd.choice(schema['classes'])
+                names = [a['n'] for a in schema['attrs'][c]]
+                plain = metagen.plain_attrs(schema, c)
+
+                def val(n):
+                    t = metagen.value_for(schema, c, n, rnd, 4)
+                    # explicit values of identifying attributes come from a range the generators never hand out
+                    if n in plain and t.startswith('u:') and t != 'u:0' and rnd.random() < 0.7:
+                        return 'u:%d' % rnd.randint(200, 319)
+                    return t
+                pos = [val(names[j]) for j in range(rnd.randint(0, len(names)))]
+                kw = {n: val(n) for n in names if rnd.random() < 0.2}
+                acts.append(['New', c, pos, kw])
+            elif k < 0.9:
+                acts.append(['GenPeek'])
+            else:
+                acts.append(['GenNext'])
+        runs.append({'acts': acts})
+    return runs
+
+
 def unknown_runs(schema, rnd, tier):
     return [{'acts': [['NewUnknown', 'W']]}, {'acts': [['GenPeek'], ['NewUnknown', 'W']]}]
 
@@ -55,6 +84,12 @@ def plans():
         {'name': 'uuid_valued', 'schema': 'valued', 'model': False, 'bound': 2, 'gen': 'uuid', 'random': random_runs},
         {'name': 'int_valued', 'schema': 'valued', 'model': False, 'bound': 2, 'random': random_runs},
         {'name': 'int_reals', 'schema': 'reals', 'model': False, 'bound': 2, 'random': random_runs},
+        {'name': 'ref_args', 'schema': 'ref_first', 'spec': 'SpecVal', 'alpha': {'newv', 'newref'},
+         'vals': {'STRING': {'s:a'}, 'UNIQUE_ID': {'u:0', 'u:9'}, 'INTEGER': {'i:7'}},
+         'bound': {'quick': {'T': 1, 'S': 1}, 'thorough': {'T': 1, 'S': 2}}, 'invariants': inv + ['Symmetric'], 'properties': props,
+         'must_cover': ('VNew',), 'budget': 6000, 'maxlen': 10, 'random': ref_runs},
+        {'name': 'ref_args_middle', 'schema': 'ref_middle', 'model': False, 'bound': 3, 'random': ref_runs},
+        {'name': 'ref_args_uuid', 'schema': 'ref_middle', 'model': False, 'bound': 3, 'gen': 'uuid', 'random': ref_runs},
         {'name': 'unknown_type', 'schema': 'unknown_type', 'model': False, 'bound': 1, 'random': unknown_runs},
     ]
 
@@ -74,5 +109,6 @@ def check(tier, replay_path=None):
             'whether an explicitly supplied id consumes a generator value is not fixed by the property: the trace '
             'specification takes the number of ids handed out from the generator itself (peek of the integer generator, '
             'the call counter of the harness\' own generator)',
-            'positional arguments stop before the first referential attribute; referential arguments are covered by C03',
+            'a creation call whose referential values would give a single-valued end a second partner is outside the domain '
+            '(Meta!Over), as in C03',
         ])
